@@ -39,25 +39,43 @@ EdgeUniverse(k) == {e \in SUBSET (1..k) : Cardinality(e) >= 2}
 ConnPatterns(k) == {P \in SUBSET EdgeUniverse(k) : Connected(P, k)}
 Classes(k) == {Orbit(P, k) : P \in ConnPatterns(k)}
 
-\* constant-level tables (TLC evaluates them once per run): labelled connected pattern |-> its class
-ClassTab3 == [P \in ConnPatterns(3) |-> Orbit(P, 3)]
-ClassTab4 == [P \in ConnPatterns(4) |-> Orbit(P, 4)]
-ClassTab(k) == IF k = 3 THEN ClassTab3 ELSE IF k = 4 THEN ClassTab4 ELSE [P \in ConnPatterns(k) |-> Orbit(P, k)]
-Classes3 == {ClassTab3[P] : P \in DOMAIN ClassTab3}
-Classes4 == {ClassTab4[P] : P \in DOMAIN ClassTab4}
-ClassSet(k) == IF k = 3 THEN Classes3 ELSE IF k = 4 THEN Classes4 ELSE Classes(k)
-\* the class of any pattern (also of a disconnected one, which is in no class of ClassSet)
-OrbitOf(P, k) == IF P \in DOMAIN ClassTab(k) THEN ClassTab(k)[P] ELSE Orbit(P, k)
+\* THE definition of the census: class |-> number of k-subsets of U showing a pattern of that class
+\* (every pattern of a class of Classes(k) is connected, so disconnected subsets count nowhere)
+Census(H, U, k) == [c \in Classes(k) |-> Cardinality({S \in KSubsets(U, k) : Pattern(H, S) \in c})]
 
-\* the k-subsets of U that are counted, and what each shows
-ConnSets(H, U, k) == {S \in KSubsets(U, k) : Pattern(H, S) \in DOMAIN ClassTab(k)}
-Shown(H, U, k) == [S \in ConnSets(H, U, k) |-> Pattern(H, S)]
-CountIn(sh, cls) == Cardinality({S \in DOMAIN sh : sh[S] \in cls})
-Census(H, U, k) == LET sh == Shown(H, U, k) IN [c \in ClassSet(k) |-> CountIn(sh, c)]
-\* the same function restricted to the classes that occur (all the others are 0)
-CensusNZ(H, U, k) == LET sh == Shown(H, U, k)
-                         cl == [S \in DOMAIN sh |-> ClassTab(k)[sh[S]]]
-                     IN [c \in {cl[S] : S \in DOMAIN sh} |-> Cardinality({S \in DOMAIN sh : cl[S] = c})]
+(* The same through integers (what exploration and validation evaluate; MC_Motifs has TLC   *)
+(* establish that it is the definition above).  The hyperedges over 1..k are numbered, a    *)
+(* pattern is the number whose binary digits are its hyperedges, and a class is identified  *)
+(* by the least number in it: ClassId.  Tables are constant-level: TLC builds them once.    *)
+RECURSIVE Pow(_, _)
+Pow(b, n) == IF n = 0 THEN 1 ELSE b * Pow(b, n - 1)
+Mask(e) == LET F(n) == Pow(2, n - 1) IN SumSet(F, e)
+EBit(k) == [e \in EdgeUniverse(k) |-> Pow(2, Cardinality({g \in EdgeUniverse(k) : Mask(g) < Mask(e)}))]
+EBit3 == EBit(3)
+EBit4 == EBit(4)
+PatCode(P, k) == LET t == IF k = 3 THEN EBit3 ELSE IF k = 4 THEN EBit4 ELSE EBit(k)
+                     F(e) == t[e]
+                 IN SumSet(F, P)
+\* code |-> class id, 0 for a pattern that does not connect 1..k (index = code + 1)
+IdTab(k) == LET pats == [P \in SUBSET EdgeUniverse(k) |-> PatCode(P, k)]
+                byc  == [c \in 0..(Pow(2, Cardinality(EdgeUniverse(k))) - 1) |-> CHOOSE P \in DOMAIN pats : pats[P] = c]
+            IN [i \in 1..Pow(2, Cardinality(EdgeUniverse(k))) |->
+                   LET P == byc[i - 1] IN
+                   IF Connected(P, k) THEN Min({PatCode(Q, k) : Q \in Orbit(P, k)}) ELSE 0]
+IdTab3 == IdTab(3)
+IdTab4 == IdTab(4)
+ClassId(P, k) == (IF k = 3 THEN IdTab3 ELSE IF k = 4 THEN IdTab4 ELSE IdTab(k))[PatCode(P, k) + 1]
+ClassIds3 == {IdTab3[i] : i \in DOMAIN IdTab3} \ {0}
+ClassIds4 == {IdTab4[i] : i \in DOMAIN IdTab4} \ {0}
+ClassIds(k) == IF k = 3 THEN ClassIds3 ELSE IF k = 4 THEN ClassIds4 ELSE {IdTab(k)[i] : i \in DOMAIN IdTab(k)} \ {0}
+
+\* k-subset of U |-> id of the class it shows (0: not counted)
+ShownIds(H, U, k) == [S \in KSubsets(U, k) |-> ClassId(Pattern(H, S), k)]
+CountOf(sh, id) == Cardinality({S \in DOMAIN sh : sh[S] = id})
+\* the census restricted to the classes that occur (all the others are 0), keyed by class id
+CensusNZ(H, U, k) == LET sh == ShownIds(H, U, k)
+                     IN [id \in {sh[S] : S \in DOMAIN sh} \ {0} |-> CountOf(sh, id)]
+ConnSets(H, U, k) == {S \in KSubsets(U, k) : Connected(Pattern(H, S), k)}
 
 (* the three passes of the enumeration (anchors): a k-subset is reached by the *)
 (* "full" pass when it is a hyperedge, by the "not full" pass (k = 4) when it  *)
@@ -110,8 +128,6 @@ IsCanonicalDef(P, k) == LET p == PatEnc(P) IN \A f \in Perms(k) : ~SeqLess(PatEn
 (* k-digit number in base k+1, padded with zeros on the right (so a prefix is         *)
 (* smaller); two patterns OF THE SAME SIZE compare as their ascending code sequences, *)
 (* i.e. by who owns the least code they do not share.                                 *)
-RECURSIVE Pow(_, _)
-Pow(b, n) == IF n = 0 THEN 1 ELSE b * Pow(b, n - 1)
 TupCode(A, k) == LET F(n) == n * Pow(k + 1, k - Rank(A, n)) IN SumSet(F, A)
 EdgeCode(e, k) == TupCode(e[1], k) * Pow(k + 1, k) + TupCode(e[2], k)
 ECode3 == [e \in DEdgeU(3) |-> EdgeCode(e, 3)]
